@@ -904,6 +904,10 @@ def _step(w, ev, ctx):
             elif strict is not None and strict.allowed == ('CIMError',):
                 what = 'existing-subscription-created-again'
             _check_answer(ctx, strict or own.Expect(['ok']), res, what)
+            if obs == 'refused' and strict is not None and added - set(acceptable[0][1]):
+                # (list of destinations) the call failed later on, but not where it had to
+                ctx.add('refusal', what, 'refused at %s, only %s created' % (strict.note, acceptable[0][1]),
+                        '%s; created %s' % (_describe(res), sorted(added)))
         for sk, e, _ in news:
             if sk in (match[0][1] if match else acceptable[0][1]):
                 model.commit(s, sk, e)
